@@ -158,13 +158,19 @@ def focusLost : Nat → Tree → Id → Res Tree
     let w ← get t win
     pure (if w.isFocused then set t win { w with isFocused := false } else t)
 
+/-- `_focus_gained(win, child)` as repaired by /repo commit 7a99ce0: the branch that held the focus is told it lost
+    it also when `win` itself takes the focus, and a focused ancestor loses `is_focused` when a descendant takes it. -/
 def focusGained : Nat → Tree → Id → Option Id → Res Tree
   | 0, _, _, _ => .ub "parent chain too long"
   | f + 1, t, win, child => do
     let w ← get t win
-    let t ← match w.focusedChild, child with
-      | some fc, some c => if fc ≠ c then focusLost (f + 1) t fc else pure t
-      | _, _ => pure t
+    -- if(win->focused_child && win->focused_child != child) _focus_lost(old);
+    let t ← match w.focusedChild with
+      | some fc => if some fc ≠ child then focusLost (f + 1) t fc else pure t
+      | none => pure t
+    -- if(child && win->is_focused) win->is_focused = false;
+    let w ← get t win
+    let t := if child.isSome && w.isFocused then set t win { w with isFocused := false } else t
     let w ← get t win
     let t ← match w.parent with
       | some p => if w.isVisible then focusGained f t p (some win) else pure t
